@@ -252,6 +252,22 @@ theorem coarsening_nonneg (dim : Nat) (lmin lmax nrbe : Int) (version : Nat) (au
   rw [h0] at this
   exact this
 
+/-- the clause at the USE site: whatever coarsening the error estimate of `automatic_extend_split` requests (any
+integer — `get_parent_split_operation` counts it down below 0 on grids without boundary points), the value the area
+carries while `coarsen_grid` reads it is non-negative, and the level that is evaluated, `lmax_used − value`, is the
+requested level `lmax − coarsening` -/
+theorem coarsening_nonneg_when_used (lmax c : Int) :
+    0 ≤ (flexEval lmax c).1 ∧ (flexEval lmax c).2 - (flexEval lmax c).1 = lmax - c ∧ lmax ≤ (flexEval lmax c).2 := by
+  unfold flexEval
+  by_cases h : c ≥ 0
+  · simp only [h, if_true]
+    omega
+  · simp only [h, if_false]
+    omega
+
+example : flexEval 3 (-2) = (0, 5) := by decide
+example : flexEval 3 1 = (1, 3) := by decide
+
 /-! ## clause 5: the local combination -/
 
 /-- **version 0**: in a fresh area of coarsening `c ≥ 0` the component grids actually computed — the collision
